@@ -43,6 +43,7 @@ namespace verif::e2 {
     inline thread_local int tl_os = -1;
     inline thread_local bool tl_holding = false;
     inline thread_local std::uint64_t tl_rng = 0;
+    inline bool g_place = false;    // also keep the placement sites place.* (C10)
 
     inline int os_id()
     {
@@ -83,7 +84,7 @@ namespace verif::e2 {
         case 's': return s[1] == 'w' || s[1] == 't' || s[1] == 'a';    // sw.* sts.* sas.*
         case 't': return s[1] == 'a';                                   // task.*
         case 'l': return s[1] == 'o';                                   // loop.*
-        case 'p': return s[1] == 'h';                                   // phase.*
+        case 'p': return s[1] == 'h' || (s[1] == 'l' && g_place);      // phase.*  (place.* on request)
         case 'q': return true;                                          // q.*
         case 'b': return s[1] == 'o';                                   // body.*
         case 'x': return true;                                          // x.* harness notes
